@@ -18,8 +18,8 @@ from .gen import q2s, LP, INF, NINF
 from .hist import hx
 
 OBL = {
-    "C08": [("Qsx.Props.C08", t) for t in ["Qsx.Props.C08.range_split"]],
-    "C09": [("Qsx.Props.C08", t) for t in ["Qsx.Props.C08.range_split"]],
+    "C08": [("Qsx.Props.C08", t) for t in ["Qsx.Props.C08.range_split", "Qsx.Props.C08.lp_bounds_roundtrip"]],
+    "C09": [("Qsx.Props.C08", "Qsx.Props.C08.range_split"), ("Qsx.Props.C09", "Qsx.Props.C09.mps_bounds_roundtrip")],
 }
 
 NAME_POOL = ["x", "y", "z", "var", "e5", "E1", "inf1", "st1", "free1", "x_1", "c2", "c3", "r", "obj2", "Max1", "bnd", "a.b", "v(1)", "w#", "x1", "x2", "x10",
@@ -159,6 +159,47 @@ def compare(orig, back, fmt_chain):
     return diffs
 
 
+def parse_lp_bounds(text, cn):
+    """{column name: canonical line} from the Bounds section of an LP file"""
+    out = {}
+    if "\nBounds\n" not in text:
+        return out
+    sec = text.split("\nBounds\n", 1)[1]
+    for ln in sec.split("\n"):
+        t = ln.split()
+        if not t:
+            continue
+        if t[0] in ("End", "Integer", "Integers", "General", "Generals", "Binary", "Binaries"):
+            break
+        if len(t) == 3 and t[1] == "=":
+            out[t[0]] = "fixed %s" % q2s(gen.s2q(t[2]))
+        elif len(t) == 2 and t[1] == "free":
+            out[t[0]] = "free"
+        elif len(t) == 5 and t[1] == "<=" and t[3] == "<=":
+            out[t[2]] = "range %s %s" % (q2s(gen.s2q(t[0])), q2s(gen.s2q(t[4])))
+        elif len(t) == 3 and t[1] == "<=" and t[0] in cn and t[2] not in cn:
+            out[t[0]] = "range - %s" % q2s(gen.s2q(t[2]))
+        elif len(t) == 3 and t[1] == "<=":
+            out[t[2]] = "range %s -" % q2s(gen.s2q(t[0]))
+        else:
+            out["?" + ln] = "unparsed"
+    return out
+
+
+def parse_mps_bounds(text):
+    out = {}
+    if "\nBOUNDS\n" not in text:
+        return out
+    sec = text.split("\nBOUNDS\n", 1)[1]
+    for ln in sec.split("\n"):
+        t = ln.split()
+        if not t or t[0] == "ENDATA":
+            break
+        kind, name = t[0], t[2]
+        out[name] = (out.get(name, "") + " " + kind + ((" " + q2s(gen.s2q(t[3]))) if len(t) > 3 else "")).strip()
+    return out
+
+
 def fmt_row(v):
     return "%s rhs=%s range=%s {%s}" % (v[0], q2s(v[1]), q2s(v[2]), ", ".join("%s:%s" % (k, q2s(a)) for k, a in sorted(v[3].items())))
 
@@ -193,7 +234,9 @@ def run(pid, tier, seed):
                  "write 2 %s %s" % (first, hx(f3)), "read 3 %s %s" % (first, hx(f3)), "dumpapi 3",
                  # the other format directly, for "LP and MPS renderings agree"
                  "write 0 %s %s" % (other, hx("d%d.%s" % (k % 5, ext[other]))), "read 4 %s %s" % (other, hx("d%d.%s" % (k % 5, ext[other]))), "dumpapi 4",
-                 "solve 0 exact primal none", "solve 1 exact primal none", "solve 4 exact primal none", "getfile " + hx(f1 if not comp else f3)]
+                 "solve 0 exact primal none", "solve 1 exact primal none", "solve 4 exact primal none", "getfile " + hx(f1 if not comp else f3),
+                 # the plain text of both renderings of the original problem (bounds-section tie to the Lean codec)
+                 "write 0 LP " + hx("o%d.lp" % (k % 5)), "getfile " + hx("o%d.lp" % (k % 5)), "write 0 MPS " + hx("o%d.mps" % (k % 5)), "getfile " + hx("o%d.mps" % (k % 5))]
         jobs.append((lp, cn, rn, lines, comp))
     def work(job):
         lp, cn, rn, lines, comp = job
@@ -223,6 +266,7 @@ def run(pid, tier, seed):
     from concurrent.futures import ThreadPoolExecutor
     with ThreadPoolExecutor(build.NCPU) as ex:
         results = list(ex.map(work, jobs))
+    bounds_jobs = []
     for (lp, cn, rn, lines, comp), tr in zip(jobs, results):
         key = lp.line() + "|" + "|".join(cn) + "|" + "|".join(rn)
         ev.count(key, nontrivial=True)
@@ -272,8 +316,39 @@ def run(pid, tier, seed):
             res = [(proto.get(b, "rval"), proto.get(b, "status"), proto.get(b, "objval") if proto.get(b, "status") == ["1"] else None) for b in sv]
             if len(set(map(str, res))) > 1:
                 rep.violation("original, read-back and other-format problem solve differently: %s" % res, ctx, signature={"symptom": "solve-differs"})
+        gfs = [(op, blk) for op, blk in tr if op.startswith("getfile")]
+        if orig is not None and len(gfs) >= 3:
+            olp, ocn, orn, oflags = orig
+            cols = " ".join("%s %s %d" % (q2s(c[1]), q2s(c[2]), 1 if (j < len(oflags) and oflags[j] == "1") else 0) for j, c in enumerate(olp.cols))
+            for fmt, (gop, gblk) in (("lp", gfs[1]), ("mps", gfs[2])):
+                fb = proto.get(gblk, "file")
+                if not fb or fb[0] in ("missing", "-") or not olp.cols:
+                    continue
+                ftxt = bytes.fromhex(fb[0]).decode("latin-1")
+                bounds_jobs.append((fmt, ftxt, ocn, "bounds %s %d %s" % (fmt, len(olp.cols), cols), dict(ctx, file=ftxt[:3000])))
         if len(ev.cov["samples"]) < 3 and text:
             ev.sample({"file": text[:700]})
+    # the Bounds / BOUNDS section the writers produced vs the Lean codec (whose round trip is proved)
+    bm = solvelib.Model(*proto.INF_LINE.split()[1:3])
+    bks = [bm.ask(j[3]) for j in bounds_jobs]
+    if bounds_jobs:
+        bm.run()
+    for (fmt, ftxt, ocn, line, bctx), k in zip(bounds_jobs, bks):
+        want = {}
+        for key, v in bm.ans(k):
+            if key == "c":
+                j = int(v[0])
+                rest = " ".join(v[1:])
+                if rest and rest != "none":
+                    want[ocn[j]] = rest
+        got = parse_lp_bounds(ftxt, ocn) if fmt == "lp" else parse_mps_bounds(ftxt)
+        ev.stat("bounds-sections-compared:" + fmt)
+        ev.cov["traces_validated_against_impl"] += 1
+        if got != want:
+            dn = sorted(set(got) | set(want), key=str)
+            dn = [n for n in dn if got.get(n) != want.get(n)]
+            rep.violation("the %s writer's bounds section differs from the modelled writer for column %r: file %r, model %r" % (fmt.upper(), dn[0], got.get(dn[0]), want.get(dn[0])),
+                          bctx, signature={"symptom": "bounds-section-differs", "fmt": fmt})
     for thm, why in pr["failed"]:
         rep.violation("proof obligation no longer checks: %s (%s)" % (thm, why), {"theorem": thm, "why": why, "log": pr["log"][-2000:]},
                       signature={"symptom": "proof", "theorem": thm}, found_input=False)
